@@ -8,6 +8,7 @@ import (
 	"sort"
 	"strings"
 	"testing"
+	"testing/synctest"
 	"time"
 
 	"github.com/vx-labs/mqtt-protocol/packet"
@@ -48,6 +49,8 @@ func c01wpaths() []c01wpath {
 				// nothing else ever happens on the publisher's node: no session subscribes there, no subscription is created
 				// there; all it learns about subscriptions comes from the other node's gossip
 				out = append(out, c01wpath{n, []string{f1}, nil, false, "quiet-publisher-node"})
+				// the answer to the first forwarded publish is lost (the peer stored it, the connection broke afterwards)
+				out = append(out, c01wpath{n, []string{f1}, nil, false, "first-forward-answer-lost"})
 			}
 			for _, f2 := range c01wFilters {
 				if f1 != f2 {
@@ -187,6 +190,9 @@ func TestC01Wire(t *testing.T) {
 						o.Connect(ConnectOpts{ClientID: "s1", KeepAlive: 600, User: "mp:elsewhere"})
 						w.Step()
 					}
+				}
+				if p.Env == "first-forward-answer-lost" {
+					w.LoseNextResponse(2, 1)
 				}
 				if s1.BrokerClosed() {
 					viol("c01-wire-session-ended", "after %q the broker ended the subscribed session", p.Env)
@@ -464,16 +470,23 @@ type c16wpath struct {
 	User   string `json:"user"`
 	Pass   string `json:"password"`
 	Follow string `json:"follow_up"`
+	// NoClientID: the CONNECT carries a zero-length client identifier (the broker may give it one of its own)
+	NoClientID bool `json:"zero_length_client_id,omitempty"`
 }
+
+const c16token = "tok-0123456789abcdef0123456789abcdef-0123456789" // a password of token length
 
 func c16wpaths() []c16wpath {
 	var out []c16wpath
-	cands := [][2]string{{"alice", "pw-alice"}, {"bob", "pw-bob"}, {"carol", "pw-carol"}, {"alice", "pw-bob"}, {"alice", ""}, {"", "pw-alice"}, {"", ""}, {"mallory", "x"}, {"pw-alice", "alice"}, {"bob", "wrong"}, {"eve", ""}, {"locked", ""}, {"eve", "x"}}
+	cands := [][2]string{{"alice", "pw-alice"}, {"bob", "pw-bob"}, {"carol", "pw-carol"}, {"alice", "pw-bob"}, {"alice", ""}, {"", "pw-alice"}, {"", ""}, {"mallory", "x"}, {"pw-alice", "alice"}, {"bob", "wrong"}, {"eve", ""}, {"locked", ""}, {"eve", "x"}, {"tok", c16token}, {"tok", c16token[:len(c16token)-1]}}
 	for _, store := range []string{"file", "static"} {
 		for _, n := range []int{1, 2} {
 			for _, c := range cands {
 				for _, f := range []string{"subscribe", "will-drop", "publish-retained", "nothing"} {
-					out = append(out, c16wpath{store, n, c[0], c[1], f})
+					out = append(out, c16wpath{store, n, c[0], c[1], f, false})
+					if f == "subscribe" || f == "nothing" {
+						out = append(out, c16wpath{store, n, c[0], c[1], f, true})
+					}
 				}
 			}
 		}
@@ -489,9 +502,9 @@ func TestC16Wire(t *testing.T) {
 	}
 	file := filepath.Join(scratch, fmt.Sprintf("cred-%d.csv", os.Getpid()))
 	fp := func(s string) string { return fmt.Sprintf("%x", sha256.Sum256([]byte(s))) }
-	os.WriteFile(file, []byte("carol:"+fp("pw-carol")+":\nalice:"+fp("pw-alice")+":m1\nbob:"+fp("pw-bob")+"\nlocked:\neve:"+fp("")+"\n"), 0o600)
+	os.WriteFile(file, []byte("carol:"+fp("pw-carol")+":\nalice:"+fp("pw-alice")+":m1\nbob:"+fp("pw-bob")+"\nlocked:\neve:"+fp("")+"\ntok:"+fp(c16token)+"\n"), 0o600)
 	defer os.Remove(file)
-	table := map[string][2]string{"alice": {"pw-alice", "m1"}, "bob": {"pw-bob", auth.DefaultMountPoint}, "carol": {"pw-carol", auth.DefaultMountPoint}, "eve": {"", auth.DefaultMountPoint}}
+	table := map[string][2]string{"alice": {"pw-alice", "m1"}, "bob": {"pw-bob", auth.DefaultMountPoint}, "carol": {"pw-carol", auth.DefaultMountPoint}, "eve": {"", auth.DefaultMountPoint}, "tok": {c16token, auth.DefaultMountPoint}}
 	RunPaths(t, "C16", "C16/wire", "TestC16Wire", len(paths), vk.Pick(6*time.Minute, 20*time.Minute),
 		func(t *testing.T, i int, rep *vk.Report) {
 			p := paths[i]
@@ -535,7 +548,11 @@ func TestC16Wire(t *testing.T) {
 				w.Step()
 				before := w.Node(1).View()
 				c := w.NewClient("candidate", 1, AckAll)
-				rc := c.Connect(ConnectOpts{ClientID: "cand", KeepAlive: 600, User: p.User, UserPresent: true, Password: p.Pass, WillTopic: "will/t", WillMsg: "cand-will"})
+				cid := "cand"
+				if p.NoClientID {
+					cid = ""
+				}
+				rc := c.Connect(ConnectOpts{ClientID: cid, KeepAlive: 600, User: p.User, UserPresent: true, Password: p.Pass, WillTopic: "will/t", WillMsg: "cand-will"})
 				w.Step()
 				Observe(w, rep)
 				if want && rc != 0 {
@@ -582,7 +599,7 @@ func TestC16Wire(t *testing.T) {
 				} else {
 					found := false
 					for _, s := range w.Node(1).DState.SessionMetadatas().All() {
-						if s.ClientID == "cand" {
+						if s.ClientID == "cand" || (p.NoClientID && s.ClientID != "res-default") { // (a zero-length client identifier may have been replaced by the broker)
 							found = true
 							if s.MountPoint != wantMount {
 								viol("c16-wrong-mount-point", "accepted session lives in mount point %q, the entry says %q", s.MountPoint, wantMount)
@@ -623,5 +640,95 @@ func TestC16Wire(t *testing.T) {
 		func(rep *vk.Report) {
 			rep.Rule = "paths = store {3-entry file with 2- and 3-field lines, static} x nodes {1,2} x 10 candidate credential pairs x follow-up {subscribe, publish retained, drop with will, nothing}; refused: refusal CONNACK and no session / subscription / retained / will anywhere; accepted: session listed in the entry's mount point and isolated accordingly; non-trivial = accepted paths"
 			rep.Floor("accepted_paths", 10, rep.Nontrivial)
+		})
+}
+
+// TestC07LateAnswers: one answer of the environment comes late while a retained message is being published (QoS 1): the
+// k-th write of the broker to a client returns 1.5 s after taking effect, so whichever broker goroutine performed it is
+// held at that point while a new subscriber arrives. Whatever the point, the new subscriber must end up with the message
+// (as the retained replay of its subscription, or as a live copy), and a subscriber arriving after everything settled gets
+// exactly one retained replay with the newest payload.
+func TestC07LateAnswers(t *testing.T) {
+	type lp struct {
+		Nodes  int       `json:"nodes"`
+		Second bool      `json:"second_publish_overwrites"`
+		Dev    Deviation `json:"one_late_answer"`
+	}
+	var paths []lp
+	for _, n := range []int{1, 2} {
+		for _, second := range []bool{false, true} {
+			for k := 1; k <= 8; k++ {
+				paths = append(paths, lp{n, second, Deviation{"client-write", k, 1500 * time.Millisecond}})
+			}
+			for k := 1; k <= 3; k++ {
+				paths = append(paths, lp{n, second, Deviation{"log-append", k, 1500 * time.Millisecond}})
+			}
+		}
+	}
+	RunPaths(t, "C07", "C07/late-answers", "TestC07LateAnswers", len(paths), vk.Pick(5*time.Minute, 15*time.Minute),
+		func(t *testing.T, i int, rep *vk.Report) {
+			p := paths[i]
+			RunBubble(t, fmt.Sprintf("p%d", i), func(t *testing.T) {
+				w := NewWorld(t, p.Nodes)
+				defer w.Close()
+				viol := func(sig, format string, a ...any) {
+					rep.Violate(vk.Violation{Sig: sig, Msg: fmt.Sprintf("%+v: ", p) + fmt.Sprintf(format, a...), Replay: p})
+				}
+				pub := w.NewClient("pub", 1, AckAll)
+				pub.Connect(ConnectOpts{ClientID: "pub", KeepAlive: 600})
+				late := w.NewClient("late", p.Nodes, AckAll)
+				late.Connect(ConnectOpts{ClientID: "late", KeepAlive: 600})
+				w.Step()
+				want := "v1"
+				if p.Second {
+					pub.Publish("a", "v0", 1, true, 1)
+					w.Step()
+					want = "v2"
+				}
+				d := p.Dev
+				w.SetDeviation(&d)
+				pub.Publish("a", want, 1, true, 2)
+				synctest.Wait() // no virtual time passes: the new subscriber arrives while the late answer is outstanding
+				w.PumpGossip()  // (replication to the subscriber's node has happened: the property speaks of replicated state)
+				late.Subscribe(5, 0, "a")
+				w.Idle(5 * time.Second)
+				if w.DeviationFired() {
+					rep.Extra["runs_with_one_late_answer"] = asInt(rep.Extra["runs_with_one_late_answer"]) + 1
+				}
+				got := 0
+				for _, pk := range late.Publishes() {
+					if string(pk.Topic) == "a" && string(pk.Payload) == want {
+						got++
+					}
+				}
+				if pub.Has("PUBACK(2)") && got == 0 {
+					viol("c07-subscriber-during-publish-got-nothing", "the retained publish a=%s was acknowledged; a client that subscribed to a while the broker was held at its late answer received neither a retained replay nor a live copy of it within 5 s (inbox %s)", want, trunc(late.InboxDigest(), 200))
+					return
+				}
+				// afterwards: exactly one retained replay with the newest payload
+				after := w.NewClient("after", p.Nodes, AckAll)
+				after.Connect(ConnectOpts{ClientID: "after", KeepAlive: 600})
+				after.Subscribe(6, 0, "a")
+				w.Idle(6 * time.Second) // well past the one late answer, wherever it falls
+				var replay []string
+				for _, pk := range after.Publishes() {
+					replay = append(replay, fmt.Sprintf("%s=%s retain=%v", pk.Topic, pk.Payload, pk.Header.Retain))
+				}
+				if pub.Has("PUBACK(2)") && (len(replay) != 1 || replay[0] != "a="+want+" retain=true") {
+					viol("c07-replay-wrong:after-late-answer", "a subscriber arriving after everything settled received %v, expected exactly [a=%s retain=true]", replay, want)
+					return
+				}
+				Observe(w, rep)
+				MarkNontrivial(fmt.Sprint(p))
+				rep.Nontrivial++
+				if i%7 == 0 {
+					rep.Sample(p)
+				}
+			})
+		},
+		func(i int) any { return paths[i] },
+		func(rep *vk.Report) {
+			rep.Rule = "a retained QoS 1 publish (first value, or overwriting an earlier one) on 1 and 2 nodes x exactly one late answer of the environment (the k-th broker-to-client write, k <= 8, or the k-th log append, k <= 3, returns 1.5 s after taking effect) with a new subscriber arriving at that very moment; the subscriber must get the message one way or the other, a later one exactly one retained replay"
+			rep.Floor("late_answers", 10, int64(asInt(rep.Extra["runs_with_one_late_answer"])))
 		})
 }
